@@ -155,7 +155,8 @@ def run_symbolic(
                 inputs = ctx.model_inputs(model)
                 ch = ConH(RealMods(), {k: str(v) for k, v in inputs.items()}, h.choices)
                 try:
-                    cobs = harness(ch)
+                    with C.concrete_context():
+                        cobs = harness(ch)
                     sobs = eval_obs(ctx, model, obs)
                     cobs = eval_obs(None, None, cobs)
                     if ch.failed:
